@@ -388,6 +388,15 @@ def prop_order1(case, ctx):
     bound, _ = order1_bound(ref, r, B * noise)
     cmp_table(ctx, dense(Y), ref["M"], bound + ref["tolM"],
               "anova(order=1): dense tensor differs from constant + sum of per-mode terms beyond the noise majorant", noise=noise, r=r)
+    # the fitted model object can be asked for its cores repeatedly (other ranks / noise levels): every call must encode the
+    # same additive model (only the noise draws differ, and they stay inside the same majorant)
+    if case["route"] != "class_rel":
+        for rep in (2, 3):
+            Yk = ctx.lib(A.cores, r, noise)
+            ctx.check(oracle.wellformed(Yk, ref["n"]) is None, "ANOVA.cores called again: malformed result", call=rep)
+            cmp_table(ctx, dense(Yk), ref["M"], bound + ref["tolM"],
+                      "ANOVA.cores called again on the same fitted object no longer encodes the additive model", call=rep, noise=noise, r=r)
+        check_f01(ctx, A, ref)
 
 
 # ------------------------------------------------------------------------------------------- order 2
